@@ -535,6 +535,12 @@ type Handler struct {
 
 func (h *Handler) cb(n string) {
 	h.r.S.Emit(Ev{"ev": "Callback", "name": n})
+	if h.r.Opt.HoldCb && n == "AfterRebalanceEnd" {
+		// the user's handler takes its time
+		h.r.S.Emit(Ev{"ev": "CallbackHeld", "name": n})
+		h.r.S.At("cb.hold", "", nil)
+		h.r.S.Emit(Ev{"ev": "CallbackDone", "name": n})
+	}
 	if h.r.Opt.HookScrapes {
 		h.r.S.Emit(Ev{"ev": "HookScrape", "name": n, "ok": h.r.HookScrape()})
 	}
@@ -565,6 +571,7 @@ type Options struct {
 	Member, Total  int
 	CheckpointAuto bool
 	ReadOnly       bool   // metadata.readOnly
+	HoldCb         bool   // the handler of AfterRebalanceEnd parks until released
 	MetaCollection string // (couchbase metadata) the collection the connector is configured to keep its own documents in
 	RmReal         bool   // rollback mitigation is the real polling object over a simulated cluster (else: the emulated replica table)
 	HookScrapes    bool   // the event handler scrapes the metrics endpoint from inside every lifecycle callback
